@@ -2,7 +2,7 @@
     wrote is well formed for the reader, a node name determines its label, every node reachable from
     the root without passing a [Star] has its line, and every within-word regex met has its cluster. *)
 From CG Require Import Base.Prelude Model.Dfa Spec.DotRead Spec.DotSpec Model.Dot
-     Proofs.DotLex Proofs.DotParse Proofs.DotNames.
+     Proofs.DotLex Proofs.DotParse Proofs.DotNames Proofs.DotStates.
 Local Open Scope string_scope.
 
 (** ** Label bodies *)
@@ -265,4 +265,180 @@ Proof.
     apply (proj1 (Forall_app _ (block_head rid) inner)) in IH. destruct IH as [_ IH].
     rewrite Forall_forall in *. intros x Hx.
     apply (IH x Hx sr (sub_pre rid)); [now apply Hin|constructor].
+Qed.
+
+(** ** The loop over the children of a [Cat] / [Or] node *)
+Definition fold_children (F : N -> list N -> outcome unit (list item * list N)) :=
+  fix go (l : list N) (visited : list N) : outcome unit (list item * list N) :=
+    match l with
+    | [] => Ok ([], visited)
+    | c :: rest => do a <- F c visited; do b <- go rest (snd a); Ok ((fst a ++ fst b)%list, snd b)
+    end.
+
+Lemma fold_facts F :
+  (forall c v rc, F c v = Ok rc -> incl v (snd rc)) ->
+  forall l vis res, fold_children F l vis = Ok res ->
+    incl vis (snd res)
+    /\ (forall c, In c l -> exists v rc, F c v = Ok rc /\ incl (fst rc) (fst res) /\ incl (snd rc) (snd res))
+    /\ (forall x, In x (snd res) -> In x vis \/ exists c v rc, In c l /\ F c v = Ok rc /\ In x (snd rc) /\ ~ In x v
+                                                   /\ incl (fst rc) (fst res)).
+Proof.
+  intro Hmono. induction l as [|c rest IH]; intros vis res H; cbn [fold_children] in H.
+  - injection H as <-. cbn [fst snd]. split; [apply incl_refl|]. split; [intros ? []|intros x Hx; now left].
+  - destruct (F c vis) as [a| | |] eqn:Ea; try discriminate. cbn [obind] in H.
+    destruct (fold_children F rest (snd a)) as [b| | |] eqn:Eb; try discriminate. cbn [obind] in H.
+    injection H as <-. cbn [fst snd]. destruct (IH _ _ Eb) as [I1 [I2 I3]]. pose proof (Hmono _ _ _ Ea) as Ha.
+    split; [eapply incl_tran; eassumption|]. split.
+    + intros c' [<-|Hc'].
+      * exists vis, a. split; [exact Ea|]. split; [apply incl_appl, incl_refl|exact I1].
+      * destruct (I2 c' Hc') as [v [rc [E1 [E2 E3]]]]. exists v, rc. split; [exact E1|]. split; [now apply incl_appr|exact E3].
+    + intros x Hx. destruct (I3 x Hx) as [Hin|[c' [v [rc [Hc' [E1 [E2 [E3 E4]]]]]]]].
+      * destruct (in_dec N.eq_dec x vis) as [Hv|Hnv]; [now left|]. right. exists c, vis, a.
+        split; [now left|]. split; [exact Ea|]. split; [exact Hin|]. split; [exact Hnv|apply incl_appl, incl_refl].
+      * right. exists c', v, rc. split; [now right|]. split; [exact E1|]. split; [exact E2|]. split; [exact E3|now apply incl_appr].
+Qed.
+
+Lemma fold_same F l : (forall c v rc, In c l -> F c v = Ok rc -> snd rc = v) ->
+  forall vis res, fold_children F l vis = Ok res -> snd res = vis.
+Proof.
+  induction l as [|c rest IH]; intros Hs vis res H; cbn [fold_children] in H.
+  - now injection H as <-.
+  - destruct (F c vis) as [a| | |] eqn:Ea; try discriminate. cbn [obind] in H.
+    destruct (fold_children F rest (snd a)) as [b| | |] eqn:Eb; try discriminate. cbn [obind] in H.
+    injection H as <-. cbn [snd]. rewrite (IH (fun c' v rc Hc' => Hs c' v rc (or_intror Hc')) _ _ Eb).
+    exact (Hs c vis a (or_introl eq_refl) Ea).
+Qed.
+
+(** ** Reachability without passing a [Star], and what the printer returns for it *)
+Inductive reach_from (r : regex) : N -> N -> Prop :=
+| rf_here n : reach_from r n n
+| rf_cat n l c m : nthN (r_nodes r) n = Some (RCat l) -> In c l -> reach_from r c m -> reach_from r n m
+| rf_or n l c m : nthN (r_nodes r) n = Some (ROr l) -> In c l -> reach_from r c m -> reach_from r n m.
+
+Definition flat (r : regex) : Prop := forall m pos, nthN (r_nodes r) m <> Some (RSubword pos).
+Definition pool_flat (pool : rpool) : Prop := forall rid sr, assocN rid pool = Some sr -> flat sr.
+
+Definition node_line (r : regex) (p : string) (m : N) : item := ILine (LNode (node_id p m) (node_body r m)).
+Definition block_of (rid : N) (inner : list item) : item := IBlock ("cluster_" ++ dec rid) (block_head rid ++ inner).
+
+Definition rx_facts (pool : rpool) (r : regex) (node : N) (p : string) (vis : list N) (res : list item * list N) : Prop :=
+  incl vis (snd res)
+  /\ (forall m, reach_from r node m ->
+                In (node_line r p m) (fst res)
+                /\ forall pos rid, nthN (r_nodes r) m = Some (RSubword pos) -> nthN (r_inputs r) pos = Some (RSub rid) ->
+                                   In rid (snd res))
+  /\ (forall x, In x (snd res) ->
+                In x vis \/ exists sr inner f' v0 v1,
+                              assocN x pool = Some sr /\ In (block_of x inner) (fst res)
+                              /\ rx_items f' patched pool sr (r_root sr) None (sub_pre x) v0 = Ok (inner, v1))
+  /\ (flat r -> snd res = vis).
+
+Lemma rx_items_facts pool : pool_flat pool -> forall f r node parent p vis res,
+  rx_items f patched pool r node parent p vis = Ok res -> rx_facts pool r node p vis res.
+Proof.
+  intro Hpf. induction f as [|f IH]; intros r node parent p vis res H; [discriminate|].
+  cbn [rx_items] in H.
+  (* the facts for a node without children that leaves the visited set alone *)
+  assert (Hleafcase : forall body, nthN (r_nodes r) node <> None ->
+            (forall l, nthN (r_nodes r) node <> Some (RCat l)) -> (forall l, nthN (r_nodes r) node <> Some (ROr l)) ->
+            (forall pos, nthN (r_nodes r) node <> Some (RSubword pos)) ->
+            node_body r node = body ->
+            rx_facts pool r node p vis (ILine (LNode (node_id p node) body) :: parent_edge parent (node_id p node), vis)).
+  { intros body _ Hc Ho Hs Eb. unfold rx_facts. cbn [fst snd]. split; [apply incl_refl|]. split; [|split; [intros x Hx; now left|reflexivity]].
+    intros m Hm. inversion Hm as [n|n l c m' En _ _|n l c m' En _ _]; subst.
+    - split; [left; reflexivity|]. intros pos rid E. now elim (Hs pos).
+    - now elim (Hc l).
+    - now elim (Ho l). }
+  unfold node_body in Hleafcase.
+  destruct (nthN (r_nodes r) node) as [n|] eqn:En; [|discriminate].
+  destruct n as [|pos|pos|pos|pos|pos|children|children|c].
+  - injection H as <-. apply Hleafcase; try discriminate; reflexivity.
+  - unfold rx_input in H. destruct (nthN (r_inputs r) pos) as [inp|] eqn:Ei; [|discriminate]. cbn [obind] in H.
+    destruct inp as [lit descr|?|?|?]; try discriminate. injection H as <-.
+    apply Hleafcase; try discriminate. destruct descr; reflexivity.
+  - unfold rx_input in H. destruct (nthN (r_inputs r) pos) as [inp|] eqn:Ei; [|discriminate]. cbn [obind] in H.
+    destruct inp as [?|name|?|?]; try discriminate. injection H as <-.
+    apply Hleafcase; try discriminate. reflexivity.
+  - unfold rx_input in H. destruct (nthN (r_inputs r) pos) as [inp|] eqn:Ei; [|discriminate]. cbn [obind] in H.
+    destruct inp as [?|?|cmd|?]; try discriminate. injection H as <-.
+    apply Hleafcase; try discriminate. reflexivity.
+  - (* Subword *)
+    clear Hleafcase.
+    unfold rx_input in H. destruct (nthN (r_inputs r) pos) as [inp|] eqn:Ei; [|discriminate]. cbn [obind] in H.
+    destruct inp as [?|?|?|rid]; try discriminate.
+    destruct (assocN rid pool) as [sr|] eqn:Ep; [|discriminate].
+    assert (Hline : node_line r p node = ILine (LNode (node_id p node) (dec pos ++ ": Subword " ++ dec rid))).
+    { unfold node_line, node_body. now rewrite En, Ei. }
+    assert (Hreach : forall m, reach_from r node m -> m = node).
+    { intros m Hm. inversion Hm as [n|n l c m' En' _ _|n l c m' En' _ _]; subst; [reflexivity|congruence|congruence]. }
+    destruct (memN rid vis) eqn:Ev.
+    + injection H as <-. unfold rx_facts. cbn [fst snd]. split; [apply incl_refl|]. split; [|split].
+      * intros m Hm. apply Hreach in Hm. subst m. split.
+        -- apply in_or_app. right. left. now rewrite Hline.
+        -- intros pos' rid' E1 E2. rewrite En in E1. injection E1 as <-. rewrite Ei in E2. injection E2 as <-.
+           now apply memN_In.
+      * intros x Hx. now left.
+      * intro Hf. now elim (Hf node pos).
+    + destruct (rx_items f patched pool sr (r_root sr) None (dec rid ++ "_") (rid :: vis)) as [[inner vis']| | |] eqn:Er;
+        try discriminate. cbn [obind] in H. injection H as <-.
+      destruct (IH _ _ _ _ _ _ Er) as [_ [_ [_ Hflat]]]. cbn [snd] in Hflat. specialize (Hflat (Hpf rid sr Ep)). subst vis'.
+      unfold rx_facts. cbn [fst snd]. split; [intros x Hx; now right|]. split; [|split].
+      * intros m Hm. apply Hreach in Hm. subst m. split.
+        -- apply in_or_app. left. apply in_or_app. right. left. now rewrite Hline.
+        -- intros pos' rid' E1 E2. rewrite En in E1. injection E1 as <-. rewrite Ei in E2. injection E2 as <-. now left.
+      * intros x [<-|Hx]; [|now left]. right. exists sr, inner, f, (rid :: vis), (rid :: vis).
+        split; [exact Ep|]. split; [|exact Er]. apply in_or_app. right. now left.
+      * intro Hf. now elim (Hf node pos).
+  - injection H as <-. apply Hleafcase; try discriminate; reflexivity.
+  - (* Cat *)
+    clear Hleafcase.
+    change (fix go (l visited : list N) {struct l} : outcome unit (list item * list N) :=
+              match l with
+              | [] => Ok ([], visited)
+              | c :: rest => do a <- rx_items f patched pool r c (Some (node_id p node)) p visited;
+                             do b <- go rest (snd a); Ok ((fst a ++ fst b)%list, snd b)
+              end)
+      with (fold_children (fun c v => rx_items f patched pool r c (Some (node_id p node)) p v)) in H.
+    destruct (fold_children _ children vis) as [[its vis']| | |] eqn:Eg; try discriminate.
+    cbn [obind fst snd] in H. injection H as <-.
+    destruct (fold_facts _ (fun c v rc E => proj1 (IH _ _ _ _ _ _ E)) _ _ _ Eg) as [F1 [F2 F3]]. cbn [fst snd] in *.
+    unfold rx_facts. cbn [fst snd]. split; [exact F1|]. split; [|split].
+    + intros m Hm. inversion Hm as [n|n l c m' En' Hc Hcm|n l c m' En' Hc Hcm]; subst.
+      * split; [left; unfold node_line, node_body; now rewrite En|]. intros pos rid E. congruence.
+      * rewrite En in En'. injection En' as <-. destruct (F2 c Hc) as [v [rc [E1 [E2 E3]]]].
+        destruct (IH _ _ _ _ _ _ E1) as [_ [Hb _]]. destruct (Hb m Hcm) as [B1 B2]. split.
+        -- right. apply in_or_app. left. now apply E2.
+        -- intros pos rid Ea Eb. apply E3. exact (B2 pos rid Ea Eb).
+      * congruence.
+    + intros x Hx. destruct (F3 x Hx) as [Hv|[c [v [rc [Hc [E1 [E2 [E3 E4]]]]]]]]; [now left|].
+      destruct (IH _ _ _ _ _ _ E1) as [_ [_ [Hc3 _]]]. destruct (Hc3 x E2) as [Hv|[sr [inner [f' [v0 [v1 [A1 [A2 A3]]]]]]]]; [contradiction|].
+      right. exists sr, inner, f', v0, v1. split; [exact A1|]. split; [|exact A3]. right. apply in_or_app. left. now apply E4.
+    + intro Hf. apply (fold_same _ children) with (vis := vis) (res := (its, vis')) in Eg; [exact Eg|].
+      intros c v rc _ E. exact (proj2 (proj2 (proj2 (IH _ _ _ _ _ _ E))) Hf).
+  - (* Or *)
+    clear Hleafcase.
+    change (fix go (l visited : list N) {struct l} : outcome unit (list item * list N) :=
+              match l with
+              | [] => Ok ([], visited)
+              | c :: rest => do a <- rx_items f patched pool r c (Some (node_id p node)) p visited;
+                             do b <- go rest (snd a); Ok ((fst a ++ fst b)%list, snd b)
+              end)
+      with (fold_children (fun c v => rx_items f patched pool r c (Some (node_id p node)) p v)) in H.
+    destruct (fold_children _ children vis) as [[its vis']| | |] eqn:Eg; try discriminate.
+    cbn [obind fst snd] in H. injection H as <-.
+    destruct (fold_facts _ (fun c v rc E => proj1 (IH _ _ _ _ _ _ E)) _ _ _ Eg) as [F1 [F2 F3]]. cbn [fst snd] in *.
+    unfold rx_facts. cbn [fst snd]. split; [exact F1|]. split; [|split].
+    + intros m Hm. inversion Hm as [n|n l c m' En' Hc Hcm|n l c m' En' Hc Hcm]; subst.
+      * split; [left; unfold node_line, node_body; now rewrite En|]. intros pos rid E. congruence.
+      * congruence.
+      * rewrite En in En'. injection En' as <-. destruct (F2 c Hc) as [v [rc [E1 [E2 E3]]]].
+        destruct (IH _ _ _ _ _ _ E1) as [_ [Hb _]]. destruct (Hb m Hcm) as [B1 B2]. split.
+        -- right. apply in_or_app. left. now apply E2.
+        -- intros pos rid Ea Eb. apply E3. exact (B2 pos rid Ea Eb).
+    + intros x Hx. destruct (F3 x Hx) as [Hv|[c [v [rc [Hc [E1 [E2 [E3 E4]]]]]]]]; [now left|].
+      destruct (IH _ _ _ _ _ _ E1) as [_ [_ [Hc3 _]]]. destruct (Hc3 x E2) as [Hv|[sr [inner [f' [v0 [v1 [A1 [A2 A3]]]]]]]]; [contradiction|].
+      right. exists sr, inner, f', v0, v1. split; [exact A1|]. split; [|exact A3]. right. apply in_or_app. left. now apply E4.
+    + intro Hf. apply (fold_same _ children) with (vis := vis) (res := (its, vis')) in Eg; [exact Eg|].
+      intros c v rc _ E. exact (proj2 (proj2 (proj2 (IH _ _ _ _ _ _ E))) Hf).
+  - injection H as <-. apply Hleafcase; try discriminate; reflexivity.
 Qed.
